@@ -7,7 +7,7 @@ from vlib.harness import Violation
 PID = "C31"
 RULE = ("leaf lists of every length 0..130 (quick) / 0..1100 (thorough), enumerated exhaustively by length, "
         "with hypothesis-drawn 32-byte leaves (random, all-zero, all-ones, duplicates of the last leaf); "
-        "list-of-lists and (predecessor, round) for the LLo / payload hashes; oracle = independent Merkle "
+        "list-of-lists (the empty one included) and (predecessor, round) for the LLo / payload hashes; hashes handed over as list, tuple, iterator or generator; oracle = independent Merkle "
         "root (pad with last leaf to power of two, Blake2b-256) + own base58check. Non-trivial: length >= 3 "
         "and not a power of two. Distinct = distinct (lengths, leaves) case.")
 
@@ -19,19 +19,32 @@ def _o(h: bytes) -> str:
 def oracle(case):
     from pytezos.crypto.hash import block_payload_hash, operation_list_hash, operation_list_list_hash
     lists = [[bytes.fromhex(x) for x in l] for l in case["lists"]]
+    form = case.get("form", "list")
+
+    def arg(xs):   # the collection of hashes as the caller may hold it
+        xs = list(xs)
+        return {"list": xs, "tuple": tuple(xs), "iter": iter(xs), "gen": (x for x in xs)}[form]
+    # no passes at all
+    want0 = rc.tz_encode(rc.merkle_root([]), "LLo")
+    try:
+        got0 = operation_list_list_hash([])
+    except Exception as e:
+        raise Violation("operation_list_list_hash([]) raised %r" % (e,), case, "LLo-empty-raise")
+    if got0 != want0:
+        raise Violation("operation_list_list_hash([]) = %s, the hash of the empty list is %s" % (got0, want0), case, "LLo-empty")
     # operation list hash of the first list
     for leaves in lists:
         want = rc.tz_encode(rc.merkle_root(leaves), "Lo")
         try:
-            got = operation_list_hash([_o(x) for x in leaves])
+            got = operation_list_hash(arg(_o(x) for x in leaves))
         except Exception as e:
-            raise Violation("operation_list_hash raised %r on %d leaves" % (e, len(leaves)), case, "Lo-raise")
+            raise Violation("operation_list_hash raised %r on %d leaves (given as %s)" % (e, len(leaves), form), case, "Lo-raise")
         if got != want:
-            raise Violation("operation_list_hash of %d leaves: got %s want %s" % (len(leaves), got, want), case,
+            raise Violation("operation_list_hash of %d leaves (given as %s): got %s want %s" % (len(leaves), form, got, want), case,
                             "Lo-mismatch")
     want = rc.tz_encode(rc.merkle_root([rc.merkle_root(l) for l in lists]), "LLo")
     try:
-        got = operation_list_list_hash([[_o(x) for x in l] for l in lists])
+        got = operation_list_list_hash(arg(arg(_o(x) for x in l) for l in lists))
     except Exception as e:
         raise Violation("operation_list_list_hash raised %r" % (e,), case, "LLo-raise")
     if got != want:
@@ -42,7 +55,7 @@ def oracle(case):
     flat = lists[0]
     want = rc.tz_encode(rc.blake2b_32(pred + rnd.to_bytes(4, "big") + rc.merkle_root(flat)), "vh")
     try:
-        got = block_payload_hash(rc.tz_encode(pred, "B"), rnd, [_o(x) for x in flat])
+        got = block_payload_hash(rc.tz_encode(pred, "B"), rnd, arg(_o(x) for x in flat))
     except Exception as e:
         raise Violation("block_payload_hash raised %r" % (e,), case, "vh-raise")
     if got != want:
@@ -84,7 +97,7 @@ def run(h):
         first = draw(leaves_of(n))
         others = [draw(leaves_of(draw(st.integers(0, 9)))) for _ in range(draw(st.integers(0, 3)))]
         return {"lists": [[x.hex() for x in first]] + [[x.hex() for x in l] for l in others],
-                "pred": draw(hash32).hex(),
+                "pred": draw(hash32).hex(), "form": draw(st.sampled_from(["list", "list", "tuple", "iter", "gen"])),
                 "round": draw(st.sampled_from([0, 1, 2, 255, 256, 2 ** 31 - 1]) | st.integers(0, 2 ** 31 - 1))}
 
     lengths = list(range(0, max_len + 1))
